@@ -204,11 +204,26 @@ func (p *provider) Stop(ctx context.Context) error {
 	}
 }
 
-func (p *provider) filter(obj any) bool {
-	// should never be of a different type. ok if panics
-	rs := obj.(*v1alpha4.RuleSet) // nolint: forcetypeassert
+// ruleSetFrom returns the rule set delivered by the informer. If a deletion has been missed (e.g.
+// because the watch was interrupted), the informer delivers a cache.DeletedFinalStateUnknown
+// object holding the last known state of the deleted rule set instead of the rule set itself.
+func ruleSetFrom(obj any) (*v1alpha4.RuleSet, bool) {
+	switch typed := obj.(type) {
+	case *v1alpha4.RuleSet:
+		return typed, true
+	case cache.DeletedFinalStateUnknown:
+		rs, ok := typed.Obj.(*v1alpha4.RuleSet)
 
-	return rs.Spec.AuthClassName == p.ac
+		return rs, ok
+	default:
+		return nil, false
+	}
+}
+
+func (p *provider) filter(obj any) bool {
+	rs, ok := ruleSetFrom(obj)
+
+	return ok && rs.Spec.AuthClassName == p.ac
 }
 
 func (p *provider) addRuleSet(obj any) {
@@ -297,8 +312,13 @@ func (p *provider) deleteRuleSet(obj any) {
 
 	p.l.Info().Msg("Rule set deletion received")
 
-	// should never be of a different type. ok if panics
-	rs := obj.(*v1alpha4.RuleSet) // nolint: forcetypeassert
+	rs, ok := ruleSetFrom(obj)
+	if !ok {
+		p.l.Warn().Msg("Unexpected object received. Ignoring it")
+
+		return
+	}
+
 	conf := p.toRuleSetConfiguration(rs)
 
 	if err := p.p.OnDeleted(conf); err != nil {
